@@ -95,6 +95,16 @@ pub fn check_program(name: &str, p: &Program, acc: &mut Acc) {
     for (fi, f) in gv.funcs.iter().enumerate() {
         // does this function share instructions with another one?
         let ov = if gv.funcs.iter().enumerate().any(|(gi, g)| gi != fi && g.nodes.intersection(&f.nodes).next().is_some()) { "overlapping" } else { "disjoint" };
+        // The function's exit was turned into a jump by another (overlapping) function that was
+        // marked later: its node list, exit and merged returns are all stale then (one root cause).
+        if !gv.nodes[f.exit].is_return && ov == "overlapping" {
+            acc.violation(
+                "C11|exit|rewritten-by-overlapping-function".to_string(),
+                format!("function {:?}: its exit (line {}) was rewritten into a jump by another function that shares it, so the function no longer has a return it reaches as exit", f.labels, gv.nodes[f.exit].line + 1),
+                replay.clone(),
+            );
+            continue;
+        }
         // ---- (2) members == reachable set
         let mut reach = BTreeSet::new();
         let mut q = VecDeque::from([f.entry]);
@@ -154,21 +164,55 @@ pub fn check_program(name: &str, p: &Program, acc: &mut Acc) {
             shared = true;
         }
     }
-    // ---- (5) sharing reported exactly when it exists
-    let reported = a.lints.iter().any(|d| d.code == "node-in-many-functions");
-    acc.count(if shared { "programs_with_shared_nodes" } else { "programs_without_shared_nodes" }, 1);
-    if shared && !reported {
-        acc.violation(
-            format!("C11|overlap-missing|{name}"),
-            "instructions belong to two functions but no `node-in-many-functions` diagnostic is given".to_string(),
-            replay.clone(),
-        );
+    // ---- (5) sharing reported exactly when it exists: every maximal run of consecutive nodes
+    // with the same set of two or more owners is announced at its first node (on one of its
+    // labels, which sit between the previous node and it, or on the node itself)
+    let overlap_lines: BTreeSet<usize> = a.lints.iter().filter(|d| d.code == "node-in-many-functions").map(|d| d.span.start.line).collect();
+    let mut announced: BTreeSet<usize> = BTreeSet::new();
+    let mut prev_owners: BTreeSet<usize> = BTreeSet::new();
+    let mut prev_line: i64 = -1;
+    for nd in &gv.nodes {
+        let owners = nd.funcs.clone();
+        if owners.len() > 1 && owners != prev_owners {
+            acc.count("shared_regions", 1);
+            let lo = (prev_line + 1) as usize;
+            let hit: Vec<usize> = overlap_lines.iter().copied().filter(|l| *l >= lo && *l <= nd.line).collect();
+            if hit.is_empty() {
+                acc.violation(
+                    format!("C11|overlap-missing|region|{name}"),
+                    format!("the shared region starting at `{}` (line {}), owned by {} functions, is not reported", nd.render, nd.line + 1, owners.len()),
+                    replay.clone(),
+                );
+            }
+            announced.extend(hit);
+        }
+        if !nd.is_func_entry && !nd.is_program_entry {
+            prev_line = nd.line as i64;
+        }
+        prev_owners = owners;
     }
-    if !shared && reported {
+    acc.count(if shared { "programs_with_shared_nodes" } else { "programs_without_shared_nodes" }, 1);
+    // a report anywhere on a shared node is justified (entries inside a shared region are
+    // reported too); spurious means: on a node that has a single owner or none
+    let mut justified: BTreeSet<usize> = BTreeSet::new();
+    let mut prev_line: i64 = -1;
+    for nd in &gv.nodes {
+        if nd.funcs.len() > 1 {
+            for l in &overlap_lines {
+                if (*l as i64) > prev_line && *l <= nd.line {
+                    justified.insert(*l);
+                }
+            }
+        }
+        if !nd.is_func_entry && !nd.is_program_entry {
+            prev_line = nd.line as i64;
+        }
+    }
+    for l in overlap_lines.difference(&justified) {
         acc.violation(
             format!("C11|overlap-spurious|{name}"),
-            "`node-in-many-functions` is reported although no instruction has two owners".to_string(),
-            replay,
+            format!("`node-in-many-functions` on line {} is not on an instruction that has two owners", l + 1),
+            replay.clone(),
         );
     }
     acc.nontrivial.insert(hash64(&text));
@@ -184,7 +228,7 @@ pub fn run(ctx: &Ctx) -> i32 {
          other return merged into it, sharing reported exactly when it exists. distinct_nontrivial = distinct programs whose graph was checked",
     );
     rep.assume("programs whose analysis fails (function without reachable return, undefined label) are C16's subject and are excluded here");
-    let per_shard = ctx.tier.pick(25, 1500);
+    let per_shard = ctx.tier.pick(150, 1500);
     let acc = run_sharded(ctx, |shard| {
         let mut acc = Acc::new();
         for k in 0..per_shard {
@@ -193,6 +237,12 @@ pub fn run(ctx: &Ctx) -> i32 {
                 for s in shapes::call_graph_shapes(&mut rng) {
                     check_program(s.name, &s.prog, &mut acc);
                 }
+                for _ in 0..3 {
+                    let s = shapes::shared_tail_family(&mut rng);
+                    check_program(s.name, &s.prog, &mut acc);
+                }
+                let s = shapes::trap_handler_family(&mut rng);
+                check_program(s.name, &s.prog, &mut acc);
             } else {
                 let (prof, inject, name) = match rng.below(6) {
                     0 => (Profile::conforming(), Some(Inject::JumpToFunction), "generated:jump-into-function"),
